@@ -1162,6 +1162,11 @@ func (c *Cluster) gcProxySessions(activeNodes []string) {
 // For example, a remote node is restarted or the cluster is rehashed without the node.
 func (c *Cluster) gcProxySessionsForNode(node string) {
 	n := c.nodes[node]
+	if n == nil {
+		// The current node itself (the leader's list of active nodes may lack it after a partition)
+		// or an unknown name: there is no remote node whose proxy sessions could be collected.
+		return
+	}
 	n.lock.Lock()
 	msess := n.msess
 	n.msess = make(map[string]struct{})
